@@ -286,7 +286,9 @@ func rulesC20(r *Run) {
 		rulePrologue(r, "R1", m, stickySetErr)
 	}
 	rulePlanReturnsStored(r, "R1")
-	r.Expect("R1", 11)
+	ruleBuilderErrorsSticky(r, "R1", "Plan", false)
+	ruleBuilderErrorsSticky(r, "R1", "Reset", true)
+	r.Expect("R1", 13)
 
 	r.Kind("R2", "K10")
 	for _, m := range []string{"AddChecks", "AddSequence", "AddAction"} {
@@ -484,14 +486,14 @@ func rulePlanReturnsStored(r *Run, rule string) {
 		}
 		errSet := false
 		for _, e := range p.Ev {
-			if e.Kind == EvBranch && e.Cond != nil {
+			if e.Kind == EvBranch && e.Cond != nil && e.Depth == 0 {
 				if x, op, ok := IsNilCompare(fl.Info, e.Cond); ok && isBuilderField(fl.Info, x, "err") && (op == token.NEQ) == e.Taken {
 					errSet = true
 				}
 			}
-			if e.Kind == EvReturn && errSet && len(e.Rhs) == 2 {
+			if e.Kind == EvReturn && errSet && len(e.Rhs) == 2 && e.Depth == 0 {
 				seen = true
-				if !isBuilderField(fl.Info, e.Rhs[1], "err") && bad == "" {
+				if !isBuilderField(fl.Info, e.Rhs[1], "err") && !CallAtom(fl.Info, e.Rhs[1], bKey("setErr")) && bad == "" {
 					bad = "Plan() does not return the stored error when there is one"
 				}
 				if ValueKey(fl.Info, e.Rhs[0]) != "nil" && bad == "" {
@@ -1210,4 +1212,190 @@ func unjustifiedSkip(fl *Flow, p *Path, visits []walkVisit, isSubj func(ast.Expr
 		}
 	}
 	return "", ""
+}
+
+// ruleBuilderErrorsSticky (D36, D38): every error an error-returning builder method hands out after it has touched the
+// builder is the sticky one — the value of b.err or the result of setErr(…), which stores the first error and
+// returns it. Plan() answered a second call with a fresh error it did not record, Reset() returned the error of a
+// refused option after it had already unlocked and emptied the builder: in both cases the calls that followed were
+// judged as if nothing had happened. For Reset the obligation applies to the paths that have assigned a builder field
+// (a Reset refused before it changed anything leaves the builder as it was, which is fine).
+func ruleBuilderErrorsSticky(r *Run, rule, m string, onlyAfterChange bool) {
+	fn := r.fnByKey(rule, bKey(m))
+	if fn == nil {
+		return
+	}
+	fl, paths, ok := r.flowPaths(rule, fn)
+	if !ok {
+		return
+	}
+	paths = fl.OwnOnly(paths)
+	info := fl.Info
+	bad := ""
+	var bpos token.Pos = fn.Decl.Pos()
+	n := 0
+	for i := range paths {
+		p := &paths[i]
+		if p.Exit != ExitReturn {
+			continue
+		}
+		changed := false
+		for j, e := range p.Ev {
+			if e.Kind == EvAssign && e.Depth == 0 {
+				for _, l := range e.Lhs {
+					if _, isSel := ast.Unparen(l).(*ast.SelectorExpr); isSel {
+						if _, m := FieldPath(info, l, "builder.BuildPlan", ast.Unparen(l).(*ast.SelectorExpr).Sel.Name); m {
+							changed = true
+						}
+					}
+				}
+			}
+			if e.Kind != EvReturn || e.Depth != 0 || e.Deferred || len(e.Rhs) == 0 {
+				continue
+			}
+			res := e.Rhs[len(e.Rhs)-1]
+			if ValueKey(info, res) == "nil" || NilnessAt(info, p, j, res) == "nil" {
+				continue
+			}
+			if onlyAfterChange && !changed {
+				continue
+			}
+			n++
+			sticky := isBuilderField(info, res, "err")
+			if c, ok := ast.Unparen(res).(*ast.CallExpr); ok {
+				if f, ok := calleeFunc(info, c); ok && FuncKey(f) == bKey("setErr") {
+					sticky = true
+				}
+			}
+			if o := OriginOnPath(info, p, j, res); o != nil && !sticky {
+				if isBuilderField(info, o, "err") {
+					sticky = true
+				}
+				if c, ok := ast.Unparen(o).(*ast.CallExpr); ok {
+					if f, ok := calleeFunc(info, c); ok && FuncKey(f) == bKey("setErr") {
+						sticky = true
+					}
+				}
+			}
+			if !sticky && bad == "" {
+				bad, bpos = m+"() returns the error "+ExprStr(res)+" without recording it (exit guard "+ExitGuardKey(fl, p)+"): Err() stays as it was, the calls that follow are accepted or report a different error, and Plan() does not keep returning this one", e.Pos
+			}
+		}
+	}
+	if n == 0 {
+		r.Unresolved(rule, m+"() returning an error")
+		return
+	}
+	r.Check(rule, "reported-errors-are-sticky:"+m, bpos, bad == "", "%s", orOK(bad, "every error handed out is b.err or the result of setErr"))
+}
+
+// ruleWalkSkipsNilChildren (D40): the walkers never hand a nil child on. Submit walks a plan before Validate has had a
+// chance to refuse it, and every consumer dereferences what it is given, so a nil *Block, *Sequence or *Action in a
+// submitted plan made the process panic. Per loop over a slice of pointers in package walk: assume "element == nil"
+// and refute — an iteration that yields the element or passes it to a walker must be impossible.
+func ruleWalkSkipsNilChildren(r *Run, rule string) {
+	pkg := r.P.Pkgs["workflow/utils/walk"]
+	if pkg == nil {
+		r.Unresolved(rule, "package walk")
+		return
+	}
+	n := 0
+	for _, fn := range r.P.sortedFuncs() {
+		if fn.Pkg != pkg || fn.Decl.Body == nil || strings.HasSuffix(r.P.Fset.Position(fn.Decl.Pos()).Filename, "_test.go") {
+			continue
+		}
+		bodies := []ast.Node{fn.Decl}
+		for _, body := range bodies {
+			_ = body
+		}
+		fl := r.P.FlowOf(fn)
+		flows := []*Flow{fl}
+		// function literals (the iterator body of Plan) are analysed as their own flows
+		ast.Inspect(fn.Decl.Body, func(x ast.Node) bool {
+			if l, ok := x.(*ast.FuncLit); ok {
+				if lf, _, ok := r.litPaths(rule, l); ok {
+					flows = append(flows, lf)
+				}
+			}
+			return true
+		})
+		for _, f := range flows {
+			paths, ok := f.Paths()
+			if !ok {
+				continue
+			}
+			r.Paths += len(paths)
+			all := append(append([]Path{}, paths...), f.Truncated()...)
+			info := f.Info
+			seen := map[*ast.RangeStmt]string{}
+			var order []*ast.RangeStmt
+			for i := range all {
+				p := &all[i]
+				for j, h := range p.Ev {
+					rs, isR := h.Clause.(*ast.RangeStmt)
+					if h.Kind != EvRange || !isR || !h.Taken || h.Depth != 0 || rs.Value == nil {
+						continue
+					}
+					tv, ok := info.Types[rs.Value]
+					if !ok {
+						if o := ObjOf(info, rs.Value); o != nil {
+							tv.Type = o.Type()
+						}
+					}
+					if tv.Type == nil {
+						continue
+					}
+					if _, isPtr := tv.Type.Underlying().(*types.Pointer); !isPtr || !strings.HasPrefix(ShortType(tv.Type), "*workflow.") && !strings.HasPrefix(ShortType(tv.Type), "workflow.") {
+						continue
+					}
+					if _, had := seen[rs]; !had {
+						seen[rs] = ""
+						order = append(order, rs)
+					}
+					end := len(p.Ev)
+					for x := j + 1; x < len(p.Ev); x++ {
+						if p.Ev[x].Kind == EvRange && p.Ev[x].Clause == h.Clause {
+							end = x
+							break
+						}
+					}
+					elem := ObjOf(info, rs.Value)
+					atom := func(e ast.Expr) (string, bool, bool) {
+						if x, op, ok := IsNilCompare(info, e); ok && ObjOf(info, ast.Unparen(x)) == elem && elem != nil {
+							return "nil", op == token.NEQ, true
+						}
+						return "", false, false
+					}
+					if PathRefutedRange(f, p, j+1, end, map[string]bool{"nil": true}, atom) {
+						continue
+					}
+					for x := j + 1; x < end; x++ {
+						e := p.Ev[x]
+						if e.Kind != EvCall || e.Call == nil || e.Depth != 0 {
+							continue
+						}
+						uses := false
+						for _, a := range e.Call.Args {
+							ast.Inspect(a, func(y ast.Node) bool {
+								if id, ok := y.(*ast.Ident); ok && info.ObjectOf(id) == elem {
+									uses = true
+								}
+								return !uses
+							})
+						}
+						if uses && seen[rs] == "" {
+							seen[rs] = "the loop over " + ExprStr(rs.X) + " hands its element to " + ExprStr(e.Call.Fun) + " on a path that is possible for a nil element: a plan with a nil child makes every consumer of the walk — Submit first of all — dereference nil"
+						}
+					}
+				}
+			}
+			for _, rs := range order {
+				n++
+				r.Check(rule, "nil-child-never-handed-on:"+ShortFn(fn.Key)+":"+ExprStr(rs.X), rs.Pos(), seen[rs] == "", "%s", orOK(seen[rs], "nil elements are passed over"))
+			}
+		}
+	}
+	if n == 0 {
+		r.Unresolved(rule, "loops over child slices in package walk")
+	}
 }
